@@ -117,8 +117,10 @@ theorem C01_never_dropped (cfg : Cfg) (st : St) (e : Ev) (s : Sid) (hs : s ∈ s
 
 /-- Fires — trace level, for EVERY event list: whenever no batch is in flight (`_batch_send_d is None`)
     everything still in `_outstanding` is still queued, i.e. every send that was dispatched has fired -
-    as long as every result the client gave so far accounted for every payload of its request (C07;
-    with acks = 0: had the shape of an answer to a request without acknowledgements).  This is the
+    EXCEPT the sends of a batch for which the client broke its contract: some result it gave for THAT batch did
+    not account for every payload of its request (C07; and, with acks = 0, did not even have the shape of an
+    answer to a request without acknowledgements).  The exemption is per batch (`Track.ex1`/`ex0`: the sends of
+    that batch only): an unaccounted answer never excuses a send of an earlier or later batch.  This is the
     monitor evaluated on traces of the real Producer. -/
 theorem C01_fires_exactly_once (cfg : Cfg) (evs : List Ev) : resolvedFired cfg (traceOf cfg evs) = true :=
   resolvedFired_model cfg evs
